@@ -6,6 +6,10 @@ EXTENDS MC_MagicSM, Json
 CONSTANTS SimDepth
 VARIABLES hist
 
+\* values written to duration topics in the walks (a cfg file cannot hold a negative number): a negative duration
+\* lets the state run once and starts its successor's clock before the state's own entry
+SimDurs == {1, 4, -3}
+
 SimInit == MCInit /\ hist = <<>>
 SimNext == \E ev \in Inputs : /\ Allowed(ev) /\ EvNext(ev)
                               /\ hist' = Append(hist, ev @@ [depth |-> Len(stack)])
